@@ -42,3 +42,124 @@ Fixpoint until_quote (s : bs) : bs :=
 (* the same concatenation before the fix: no escaping *)
 Definition hidden_input_old (ensure : bs -> bs) (dest : bs) : bs :=
   input_prefix ++ ensure dest ++ input_suffix.
+
+(* ------------------------------------------------------------------------------------------
+   html/template's escapers for ordinary fields, by context (html/template/html.go):
+     text, RCDATA (title, textarea), quoted attribute value   htmlReplacementTable        = tmpl_escape
+     unquoted attribute value                                 htmlNospaceReplacementTable = nospace_escape
+     quoted URL attribute                                     URL filter/normaliser (an arbitrary function here),
+                                                              then the attribute escaper
+   Byte-level: bytes >= 128 pass through (the library works on runes: in the UNQUOTED context invalid UTF-8 and
+   the noncharacters U+FDD0..U+FDEF, U+FFF0..U+FFFF come out as numeric references, which consist of safe bytes). *)
+(* html/template htmlReplacementTable: text, RCDATA and quoted attribute values *)
+Definition tmpl_esc (c : N) : bs := if c =? 43 then [38; 35; 52; 51; 59] else esc c.
+Definition tmpl_escape (s : bs) : bs := flat_map tmpl_esc s.
+
+(* html/template htmlNospaceReplacementTable: unquoted attribute values *)
+Definition nospace_esc (c : N) : bs :=
+  if c =? 0 then [38; 35; 120; 102; 102; 102; 100; 59]
+  else if c =? 9 then [38; 35; 57; 59]
+  else if c =? 10 then [38; 35; 49; 48; 59]
+  else if c =? 11 then [38; 35; 49; 49; 59]
+  else if c =? 12 then [38; 35; 49; 50; 59]
+  else if c =? 13 then [38; 35; 49; 51; 59]
+  else if c =? 32 then [38; 35; 51; 50; 59]
+  else if c =? 34 then [38; 35; 51; 52; 59]
+  else if c =? 38 then [38; 97; 109; 112; 59]
+  else if c =? 39 then [38; 35; 51; 57; 59]
+  else if c =? 43 then [38; 35; 52; 51; 59]
+  else if c =? 60 then [38; 108; 116; 59]
+  else if c =? 61 then [38; 35; 54; 49; 59]
+  else if c =? 62 then [38; 103; 116; 59]
+  else if c =? 96 then [38; 35; 57; 54; 59]
+  else [c].
+Definition zgotmplz : bs := [90; 103; 111; 116; 109; 112; 108; 90].
+Definition nospace_escape (s : bs) : bs :=
+  match s with [] => zgotmplz | _ => flat_map nospace_esc s end.
+
+(* bytes that end an unquoted attribute value or are taken for a quote by some parser *)
+Definition unq_break (c : N) : bool :=
+  (c =? 9) || (c =? 10) || (c =? 11) || (c =? 12) || (c =? 13) || (c =? 32) ||
+  (c =? 34) || (c =? 39) || (c =? 60) || (c =? 61) || (c =? 62) || (c =? 96).
+Definition unq_safe (s : bs) : bool := negb (has unq_break s) && negb (match s with [] => true | _ => false end).
+(* what a tokenizer takes as the unquoted attribute value that starts at s *)
+Definition unq_end (c : N) : bool :=
+  (c =? 9) || (c =? 10) || (c =? 12) || (c =? 13) || (c =? 32) || (c =? 62).
+Fixpoint until_unq_end (s : bs) : bs :=
+  match s with
+  | [] => []
+  | c :: r => if unq_end c then [] else c :: until_unq_end r
+  end.
+
+(* context of a template field; the URL stage (filter + normaliser) in front of the attribute escaper is an
+   arbitrary function *)
+Inductive fctx := CtxText | CtxAttrQuoted | CtxAttrUnquoted | CtxUrlQuoted (url_stage : bs -> bs).
+Definition render_field (c : fctx) (s : bs) : bs :=
+  match c with
+  | CtxText | CtxAttrQuoted => tmpl_escape s
+  | CtxAttrUnquoted => nospace_escape s
+  | CtxUrlQuoted f => tmpl_escape (f s)
+  end.
+
+
+(* ------------------------------------------------------------------------------------------
+   Responses.  A response is a declared content type and a body made of segments: text of keymasterd's
+   own templates and literals (Trusted), request-controlled text that went through the HTML escaper
+   (Escaped: by hand; Field: by html/template in the field's context), request-controlled text written as it came (Raw).
+     failure_response   app.go writeFailureResponse: http.Error on the admin port (text/plain), the login /
+                        second-factor PAGE for a browser's 401, otherwise the line "<code> <status text>
+                        <detail>\n" with NO declared type (a browser sniffs it: it starts with a digit)
+     page               a page rendered by html/template: template text with escaped fields
+   rendered_as_document is what a browser does: declared text/html, or no declared type and a body whose
+   first non-blank byte opens a tag (a superset of the WHATWG sniffing rules net/http implements). *)
+Inductive seg := Trusted (t : bs) | Escaped (s : bs) | Field (c : fctx) (s : bs) | Raw (s : bs).
+Inductive ctype := CtHtml | CtPlain | CtAbsent | CtOther.
+Record response := mkResp { r_ctype : ctype; r_body : list seg }.
+
+Definition render_seg (g : seg) : bs :=
+  match g with Trusted t => t | Escaped s => html_escape s | Field c s => render_field c s | Raw s => s end.
+Definition render (l : list seg) : bs := flat_map render_seg l.
+
+Definition is_ws (c : N) : bool := (c =? 9) || (c =? 10) || (c =? 12) || (c =? 13) || (c =? 32).
+Fixpoint skip_ws (s : bs) : bs :=
+  match s with [] => [] | c :: r => if is_ws c then skip_ws r else s end.
+Definition sniffs_html (s : bs) : bool :=
+  match skip_ws s with c :: _ => c =? 60 | [] => false end.
+Definition rendered_as_document (r : response) : bool :=
+  match r_ctype r with
+  | CtHtml => true
+  | CtAbsent => sniffs_html (render (r_body r))
+  | _ => false
+  end.
+
+Definition is_raw (g : seg) : bool := match g with Raw _ => true | _ => false end.
+Definition is_trusted (g : seg) : bool := match g with Trusted _ => true | _ => false end.
+Definition raw_free (l : list seg) : bool := negb (existsb is_raw l).
+Definition strip (l : list seg) : list seg := filter is_trusted l.
+Definition skeleton (s : bs) : bs := filter markup_byte s.
+
+Definition digit (n : N) : N := 48 + n mod 10.
+Definition code_bytes (c : N) : bs := [digit (c / 100); digit (c / 10); digit c].
+Definition failure_line (code : N) (status msg : bs) : list seg :=
+  [Trusted (code_bytes code ++ 32 :: status ++ [32]); Raw msg; Trusted [10]].
+(* a field of a page: escaped by hand (HTMLEscapeString, the hidden login-destination INPUT) or an ordinary
+   template field in its context *)
+Inductive pfield := PEsc (s : bs) | PField (c : fctx) (s : bs).
+Definition seg_of_pfield (f : pfield) : seg := match f with PEsc s => Escaped s | PField c s => Field c s end.
+Definition page (tpl : list (bs * pfield)) (tail : bs) : list seg :=
+  flat_map (fun p => [Trusted (fst p); seg_of_pfield (snd p)]) tpl ++ [Trusted tail].
+
+Definition failure_response (admin_port accept_html : bool) (code : N) (status msg : bs)
+    (login_page : list seg) : response :=
+  if admin_port then mkResp CtPlain (failure_line code status msg ++ [Trusted [10]])
+  else if accept_html && (code =? 401) then mkResp CtAbsent login_page
+  else mkResp CtAbsent (failure_line code status msg).
+
+Definition failure_response_typed (admin_port accept_html : bool) (code : N) (status msg : bs)
+    (login_page : list seg) : response :=
+  let r := failure_response admin_port accept_html code status msg login_page in
+  if negb admin_port && accept_html then mkResp CtHtml (r_body r) else r.
+
+
+Definition ct_code (c : ctype) : N :=
+  match c with CtHtml => 0 | CtPlain => 1 | CtAbsent => 2 | CtOther => 3 end.
